@@ -226,7 +226,7 @@ ReAdmit(b, h, t) ==
         IF i = 0 THEN <<pool, latest>>
         ELSE LET prev == F[i - 1]
                  e == b[i]
-             IN IF ~ExpiredAt(e, h, t) /\ ~TooClose(e, now) /\ PushOK(prev[1], e)
+             IN IF e \notin ChainSetOf(SubSeq(chain, 1, Len(chain) - 1)) /\ ~ExpiredAt(e, h, t) /\ ~TooClose(e, now) /\ PushOK(prev[1], e)
                 THEN <<Append(prev[1], [id |-> e, enter |-> now]), PushLatest(prev[2], e)>>
                 ELSE prev
   IN F[Len(b)]
@@ -266,6 +266,34 @@ Reorg(b) ==
         /\ chain' = Append(ch, [txs |-> b, time |-> now])
         /\ UNCHANGED now
         /\ Emit([op |-> "Reorg", old |-> old, txs |-> b, t |-> now, ret |-> "ok", chk |-> Chk'])
+
+\* The same reorganisation seen by a pool that is behind with its high-priority requests: the
+\* rollback is announced on the bus's low-priority channel and the replacing block on the
+\* high-priority one, so EventAddBlock(b) can be handled BEFORE EventDelBlock(old).  The block
+\* addition then meets a header of its own height (the header is not replaced, the sweep uses the
+\* old tip's time); the late rollback fetches the new tip's header and re-admits the old tip's
+\* entries - except those the replacing block holds (they are on the chain again).
+ReorgInv(b) ==
+  /\ ~NodeRig /\ Step /\ chain # <<>>
+  /\ LET old == chain[Len(chain)].txs
+         ch == SubSeq(chain, 1, Len(chain) - 1)
+         h == Len(chain)
+     IN /\ IsDistinct(b)
+        /\ \A i \in 1..(Len(b) - 1) : b[i] < b[i + 1]
+        /\ \A i \in 1..Len(b) : b[i] \notin ChainSetOf(ch) /\ ~ExpiredAt(b[i], HOf(ch), now)
+        /\ LET p1 == Sweep(Without(pool, SeqToSet(b)), h, TOf(chain), now)
+               F[i \in 0..Len(old)] ==
+                 IF i = 0 THEN <<p1, Keep(latest, p1)>>
+                 ELSE LET prev == F[i - 1]
+                          e == old[i]
+                      IN IF e \notin SeqToSet(b) /\ ~ExpiredAt(e, h, now) /\ ~TooClose(e, now) /\ PushOK(prev[1], e)
+                         THEN <<Append(prev[1], [id |-> e, enter |-> now]), PushLatest(prev[2], e)>>
+                         ELSE prev
+           IN /\ pool' = F[Len(old)][1]
+              /\ latest' = F[Len(old)][2]
+        /\ chain' = Append(ch, [txs |-> b, time |-> now])
+        /\ UNCHANGED now
+        /\ Emit([op |-> "ReorgInv", old |-> old, txs |-> b, t |-> now, ret |-> "ok", chk |-> Chk'])
 
 Remove(S) ==
   /\ Step
@@ -314,6 +342,7 @@ Next == \/ \E w \in 1..SubW : \E e \in Ent : Submit(e, None)
         \/ \E b \in BlkCands : AddBlock(b)
         \/ (~NodeRig /\ DelBlock)
         \/ \E b \in BlkCands : Reorg(b)
+        \/ \E b \in BlkCands : ReorgInv(b)
         \/ \E S \in RmCands : Remove(S)
         \/ SweepNow
         \/ Tick
@@ -345,7 +374,7 @@ LatestOK == /\ Len(latest) <= MaxLast
             /\ Len(latest) <= Len(pool)
             /\ latest = SubSeq(Ids(pool), Len(pool) - Len(latest) + 1, Len(pool))
 \* C21: the transactions of an added block are not in the pool afterwards
-BlockGone == [][\A b \in Blocks : AddBlock(b) => SeqToSet(b) \cap IdSet(pool') = {}]_vars
+BlockGone == [][\A b \in Blocks : (AddBlock(b) \/ Reorg(b) \/ ReorgInv(b)) => SeqToSet(b) \cap IdSet(pool') = {}]_vars
 \* C22: a rejected submission leaves the pool as it was; an accepted one violates no clause
 RejectKeeps == [][\A e \in Ent : \A d \in DefectsOf(e) \cup {None} :
                     Submit(e, d) => \/ Viol(e, d) = {} /\ pool' = Append(pool, [id |-> e, enter |-> now])
